@@ -51,6 +51,9 @@ type reqRec struct {
 	Body   string      `json:"body,omitempty"`
 	Status int         `json:"status"`
 	Loc    string      `json:"location,omitempty"`
+	// Followed: this request was not issued by fs/remote but by the net/http client
+	// underneath it, following the 3xx answer to the previous request of this goroutine.
+	Followed bool `json:"followed_by_http_client,omitempty"`
 }
 
 type gstate struct {
@@ -59,8 +62,8 @@ type gstate struct {
 	// set by the hook handler: the next blob request of this goroutine is a fetch / a check
 	pending string
 	// for labelling the retry after a 401 and the GET fallback of the size probe
-	lastLabel, lastURL, lastMethod string
-	lastStatus                     int
+	lastLabel, lastURL, lastMethod, lastLoc string
+	lastStatus                              int
 
 	log  []*reqRec
 	hits map[string]int // hook point -> hits on this goroutine
@@ -174,6 +177,12 @@ type hostSrv struct {
 }
 
 type world struct {
+	// level "inner": the world replaces the innermost transport of the rhttp client that
+	// RegistryHostsFromConfig builds (as in production, a net/http client sits between
+	// fs/remote and the network and follows redirects by itself). level "outer": the world
+	// is RegistryHost.Client.Transport itself (hosts whose client transport does not follow
+	// redirects, e.g. a plain *http.Transport): fs/remote sees the 3xx and stores the URL.
+	level    string
 	hosts    map[string]*hostSrv
 	blob     []byte
 	blobPath string       // /v2/<repo>/blobs/<digest>
@@ -341,6 +350,13 @@ func (w *world) handle(req *http.Request, body string) *http.Response {
 			return resp(req, code, http.Header{"Location": {loc}}, nil)
 		case mToMirror:
 			return resp(req, 302, http.Header{"Location": {"https://" + h.toMirror + w.blobPath}}, nil)
+		case m403Redir:
+			// range fetches are refused; only the re-resolution probe is redirected
+			if req.Method == "GET" && req.Header.Get("Range") == "bytes=0-1" {
+				loc := fmt.Sprintf("https://%s/blob%s?tok=%d", h.cdn, w.blobPath, w.gen.Load())
+				return resp(req, 302, http.Header{"Location": {loc}}, nil)
+			}
+			return resp(req, 403, nil, nil)
 		}
 		return w.serveBlob(req, false)
 	}
@@ -363,11 +379,17 @@ func (w *world) RoundTrip(req *http.Request) (*http.Response, error) {
 		g = &greg.other
 	}
 	rec.G, rec.Op = g.name, g.op
-	rec.Path = w.classify(g, req)
+	// net/http's client sets Referer on the requests it generates while following a
+	// redirect; fs/remote never does.
+	if req.Header.Get("Referer") != "" && g.lastStatus/100 == 3 && g.lastLoc == rec.URL {
+		rec.Followed, rec.Path = true, g.lastLabel
+	} else {
+		rec.Path = w.classify(g, req)
+	}
 	res := w.handle(req, body)
 	rec.Status = res.StatusCode
 	rec.Loc = res.Header.Get("Location")
-	g.lastLabel, g.lastURL, g.lastMethod, g.lastStatus = rec.Path, rec.URL, req.Method, res.StatusCode
+	g.lastLabel, g.lastURL, g.lastMethod, g.lastStatus, g.lastLoc = rec.Path, rec.URL, req.Method, res.StatusCode, rec.Loc
 	g.log = append(g.log, rec)
 	return res, nil
 }
@@ -479,6 +501,16 @@ func requestText(r *reqRec) string {
 	return sb.String()
 }
 
+// realmOfClass: the token realm designated by the 401 challenge of the registry host(s) of a class.
+func (w *world) realmOfClass(class string) string {
+	for n, h := range w.hosts {
+		if h.kind == kRegistry && hostClass(n) == class {
+			return h.realmHost
+		}
+	}
+	return "-"
+}
+
 // scan applies the oracle to one request.
 func (w *world) scan(r *reqRec) (leaks []leak, ownSecrets int) {
 	txt := requestText(r)
@@ -498,11 +530,9 @@ func (w *world) scan(r *reqRec) (leaks []leak, ownSecrets int) {
 				ownSecrets++
 				continue
 			}
-			if kind != "hs" {
-				if o := w.hosts[owner]; o != nil && o.realmHost != "" && o.realmHost == r.Host {
-					ownSecrets++
-					continue
-				}
+			if kind != "hs" && w.realmOfClass(hostClass(owner)) == r.Host {
+				ownSecrets++
+				continue
 			}
 		}
 		role := "unknown-host"
@@ -526,6 +556,15 @@ func (w *world) scan(r *reqRec) (leaks []leak, ownSecrets int) {
 				key:  fmt.Sprintf("credential-leak:credential-of-other-reference-or-stale-or-removed-sent@%s", r.Path),
 				what: fmt.Sprintf("%s request to %s carries %q, a CRI credential that belongs to another image reference, an earlier pull or a removed image", r.Path, r.Host, m[0]),
 				rec:  r,
+			})
+			continue
+		}
+		if r.Followed {
+			leaks = append(leaks, leak{
+				key: fmt.Sprintf("%s:%s-forwarded-when-http-client-follows-redirect:to-%s", class, sk, role),
+				what: fmt.Sprintf("the net/http client underneath fs/remote followed the redirect of a %s request and forwarded %q (configured for host %s only) to %s (%s %s)",
+					r.Path, m[0], owner, r.Host, r.Method, r.URL),
+				rec: r,
 			})
 			continue
 		}
